@@ -381,6 +381,9 @@ pub fn gen_sprite(rng: &mut Rng, cfg: &GenCfg) -> (Sprite, PaletteProgram) {
                         } else {
                             (rng.range(1, 2) as u16, rng.range(256, 300) as u16)
                         }
+                    } else if cfg.big && ts.tw as u32 * ts.th as u32 <= 64 && rng.chance(1, 30) {
+                        // stored maps of more than 65536 tiles
+                        (rng.range(256, 300) as u16, rng.range(257, 300) as u16)
                     } else if cfg.big && rng.chance(1, 12) {
                         // stored maps wider / taller than 255 tiles
                         if rng.chance(1, 2) {
@@ -527,6 +530,30 @@ pub fn gen_sprite(rng: &mut Rng, cfg: &GenCfg) -> (Sprite, PaletteProgram) {
                 if !ids.contains(&id) {
                     ids.push(id);
                     sp.ext_files.push(ExtFileM { id, name: gen_name(rng, cfg.extremes) });
+                }
+            }
+        }
+        if !sp.ext_files.is_empty() {
+            // several entries naming the same file (one file can be referenced under several ids) ...
+            if rng.chance(1, 3) {
+                let shared = sp.ext_files[0].name.clone();
+                while sp.ext_files.len() < 8 {
+                    let id = 1000 + sp.ext_files.len() as u32 * 7;
+                    sp.ext_files.push(ExtFileM { id, name: shared.clone() });
+                }
+                for e in sp.ext_files.iter_mut() {
+                    if rng.chance(3, 4) {
+                        e.name = shared.clone();
+                    }
+                }
+            }
+            // ... and tileset links that point at entries which exist
+            let ids: Vec<u32> = sp.ext_files.iter().map(|e| e.id).collect();
+            for t in sp.tilesets.iter_mut() {
+                if let Some((fid, _)) = t.ext.as_mut() {
+                    if rng.chance(2, 3) {
+                        *fid = *rng.pick(&ids);
+                    }
                 }
             }
         }
